@@ -319,7 +319,10 @@ def m_iter_unpack(interp, fmt, buf):
     total = sum(s for _, s in fields)
     c.trust("struct.iter_unpack: struct.error unless len(buf) is a multiple of calcsize(fmt)")
     if isinstance(buf.len, SInt):
-        raise Unsupported("struct.iter_unpack over bytes of symbolic length")
+        k = c.concretize(buf.len)
+        if k is None:
+            raise Unsupported("struct.iter_unpack over bytes of symbolic length")
+        buf = SBytes(k, buf.fn)
     if buf.len % total != 0:
         raise RaiseSig(_struct.error("iterative unpacking requires a buffer of a multiple of N bytes"))
     res = []
